@@ -261,7 +261,7 @@ Inductive Step (s : st) (t : nat) (th : thread) : st -> Prop :=
     let neww := make_head (node_addr old) (stamp_at c0) in
     Step s t th (upd_thread s t (goto th (if expire (hword s) (stamp_at c0)
                                           then RetStrong old nt (hword s) (hnodes s) neww c0 c0
-                                          else RetWeak old nt (hword s) (hnodes s) neww c0 c0)))
+                                          else RetWeak old nt (hword s) (hnodes s) (retry_new_head (node_addr old) (stamp_at c0)) c0 c0)))
 | St_strong_win : forall old nt hw hn neww c0 hclk, tpc th = RetStrong old nt hw hn neww c0 hclk ->
     hword s = hw -> hnodes s = hn ->
     let s1 := with_head s neww [old] (stale s) in
@@ -269,14 +269,16 @@ Inductive Step (s : st) (t : nat) (th : thread) : st -> Prop :=
                        (bctor s1) (bdtor s1) (bst s1) in
     Step s t th (upd_thread s2 t (finish_op th (complete s2 (the_op th) nt)))
 | St_strong_lose : forall old nt hw hn neww c0 hclk, tpc th = RetStrong old nt hw hn neww c0 hclk ->
-    Step s t th (upd_thread s t (goto th (RetWeak old nt (hword s) (hnodes s) neww c0 (clock s))))
+    Step s t th (upd_thread s t (goto th (RetWeak old nt (hword s) (hnodes s)
+                                                   (retry_new_head (node_addr old) (stamp_at (clock s))) (clock s) (clock s))))
 | St_weak_win : forall old nt hw hn neww c0 hclk, tpc th = RetWeak old nt hw hn neww c0 hclk ->
     hword s = hw -> hnodes s = hn ->
     let s1 := with_head s neww (old :: hn) (stale s || (current_unit c0 <? current_unit hclk)) in
     let s2 := with_mem s1 (cur s1) (set_nth old (set_tst (table s old) TListed) (tables s1)) (bctor s1) (bdtor s1) (bst s1) in
     Step s t th (upd_thread s2 t (finish_op th (complete s2 (the_op th) nt)))
 | St_weak_lose : forall old nt hw hn neww c0 hclk, tpc th = RetWeak old nt hw hn neww c0 hclk ->
-    Step s t th (upd_thread s t (goto th (RetWeak old nt (hword s) (hnodes s) neww c0 (clock s))))
+    Step s t th (upd_thread s t (goto th (RetWeak old nt (hword s) (hnodes s)
+                                                   (retry_new_head (node_addr old) (stamp_at (clock s))) (clock s) (clock s))))
 | St_gc_win : forall hw hn c1, tpc th = GcCas hw hn c1 -> hword s = hw -> hnodes s = hn ->
     let s1 := with_head s gc_new_head [] (stale s) in
     let s2 := with_mem s1 (cur s1) (free_tables (tables s1) hn (clock s)) (bctor s1) (bdtor s1) (bst s1) in
@@ -842,7 +844,7 @@ Definition pc2_ok (s : st) (p : pc) : Prop :=
       (stale s = false -> expire hw (stamp_at c0) = true /\ stamp_ok s hw hn c0)
   | RetWeak old nt hw hn neww c0 hclk =>
       neww = make_head (node_addr old) (stamp_at c0) /\ 0 <= c0 /\ c0 <= hclk /\ hclk <= clock s /\ sup_le s old c0 /\
-      (forall k, In k hn -> sup_le s k hclk)
+      (forall k, In k hn -> sup_le s k hclk) /\ c0 = hclk       (* the clock is re-read in every round of the loop *)
   | GcCas hw hn c1 =>
       0 <= c1 /\ c1 <= clock s /\ (forall k, In k hn -> sup_le s k c1) /\
       (stale s = false -> expire hw (stamp_at c1) = true /\ stamp_ok s hw hn c1)
@@ -866,7 +868,8 @@ Record Inv2 (s : st) : Prop := {
   i2_cool : stale s = false -> forall k ti r f, T s k = Some ti -> tsup ti = Some r -> tfreed ti = Some f -> f - r > 64;
   i2_pc : forall t th, nth_error (threads s) t = Some th -> pc2_ok s (tpc th);
   i2_snap : forall t th, nth_error (threads s) t = Some th -> snap2_ok s (snap th);
-  i2_uaf : stale s = false -> forall k l c, In (k, l, c) (uaf s) -> c - l > 64
+  i2_uaf : stale s = false -> forall k l c, In (k, l, c) (uaf s) -> c - l > 64;
+  i2_nostale : stale s = false
 }.
 
 Lemma inv2_init : forall b t0 progs, 0 <= t0 -> Inv2 (init b t0 progs).
@@ -883,6 +886,9 @@ Proof.
   - intros t th H. apply nth_error_In in H. apply in_map_iff in H. destruct H as (p & <- & _). exact I.
   - intros _ k l c [].
 Qed.
+
+Lemma sup_le_mono : forall s k b b', b <= b' -> sup_le s k b -> sup_le s k b'.
+Proof. intros s k b b' H (ti & r & A & B & C). exists ti, r. repeat split; auto. lia. Qed.
 
 (* superseded tables keep their supersede time *)
 Lemma keep_sup : forall s s' t k ti r, tables_ext s s' t -> times_ext s s' t -> T s k = Some ti -> tsup ti = Some r ->
@@ -918,9 +924,10 @@ Proof.
     split; [apply (sup_le_keep s s' t old c0 c0 Hext Htime (Z.le_refl _) E)|].
     split; [intros k Hk; apply (sup_le_keep s s' t k hclk hclk Hext Htime (Z.le_refl _) (F k Hk))|].
     intro Hs. destruct (G (Hst Hs)) as [G1 G2]. split; [assumption|]. eapply stamp_ok_keep; eauto.
-  - destruct H as (A & B & C & D & E & F).
+  - destruct H as (A & B & C & D & E & F & G).
     split; [assumption|]. split; [assumption|]. split; [assumption|]. split; [lia|].
     split; [apply (sup_le_keep s s' t old c0 c0 Hext Htime (Z.le_refl _) E)|].
+    split; [|assumption].
     intros k Hk; apply (sup_le_keep s s' t k hclk hclk Hext Htime (Z.le_refl _) (F k Hk)).
   - destruct H as (A & B & C & G).
     split; [assumption|]. split; [lia|].
@@ -988,7 +995,7 @@ Qed.
 Lemma inv2_gen : forall s s' t th th',
   Inv1 s -> Inv2 s -> tables_ext s s' t -> times_ext s s' t ->
   nth_error (threads s) t = Some th -> threads s' = set_nth t th' (threads s) ->
-  clock s <= clock s' -> (stale s' = false -> stale s = false) ->
+  clock s <= clock s' -> (stale s' = false -> stale s = false) -> stale s' = false ->
   (stale s' = false -> forall k ti r, In k (hnodes s) -> ~ In k (hnodes s') -> T s k = Some ti -> tsup ti = Some r -> clock s - r > 64) ->
   (forall k, In k (hnodes s') -> sup_le s k (clock s)) ->
   (stale s' = false -> stamp_ok s (hword s') (hnodes s') (clock s)) ->
@@ -997,7 +1004,7 @@ Lemma inv2_gen : forall s s' t th th',
   (forall k l c, In (k, l, c) (uaf s') -> In (k, l, c) (uaf s) \/ (stale s = false -> c - l > 64)) ->
   Inv2 s'.
 Proof.
-  intros s s' t th th' I1 I2 Hext Htime Hth Hthr Hc Hst Hfree Hlist Hstamp Hpc Hsnap Huaf.
+  intros s s' t th th' I1 I2 Hext Htime Hth Hthr Hc Hst Hns Hfree Hlist Hstamp Hpc Hsnap Huaf.
   destruct (inv2_store s s' t I1 I2 Hext Htime Hc Hst Hfree) as (S1 & S2 & S3 & S4 & S5).
   constructor; auto.
   - pose proof (i2_clock s I2). lia.
@@ -1024,8 +1031,9 @@ Lemma inv2_local : forall s s' t th th',
   (pc2_ok s (tpc th') \/ pc2_ok s' (tpc th')) -> snap2_ok s (snap th') -> Inv2 s'.
 Proof.
   intros s s' t th th' I1 I2 Hext Htime Hth Hthr Hc Ew En Es Eu Hpc Hsnap.
-  apply (inv2_gen s s' t th th' I1 I2 Hext Htime Hth Hthr Hc); [| | | |exact Hpc|exact Hsnap|].
+  apply (inv2_gen s s' t th th' I1 I2 Hext Htime Hth Hthr Hc); [| | | | |exact Hpc|exact Hsnap|].
   - congruence.
+  - rewrite Es. apply (i2_nostale s I2).
   - intros _ k ti r H1 H2. rewrite En in H2. contradiction.
   - intros k Hk. rewrite En in Hk. apply (i2_list s I2); assumption.
   - intro Hs. rewrite Ew, En. apply (i2_stamp s I2). congruence.
@@ -1045,7 +1053,7 @@ Proof. reflexivity. Qed.
 Ltac loc2 I1 I2 Hext Htime Hth TH :=
   apply (inv2_local _ _ _ _ TH I1 I2 Hext Htime Hth); [reflexivity|cbn; lia|reflexivity|reflexivity|reflexivity|reflexivity| | ].
 Ltac gen2 I1 I2 Hext Htime Hth TH :=
-  apply (inv2_gen _ _ _ _ TH I1 I2 Hext Htime Hth); [reflexivity|cbn; lia| | | | | | | ].
+  apply (inv2_gen _ _ _ _ TH I1 I2 Hext Htime Hth); [reflexivity|cbn; lia| | | | | | | | ].
 
 Lemma inv2_step : forall s t th s', Inv1 s -> Inv2 s -> nth_error (threads s) t = Some th -> Step s t th s' -> Inv2 s'.
 Proof.
@@ -1065,6 +1073,7 @@ Proof.
   - (* snapshot read of a freed table *)
     gen2 I1 I2 Hext Htime Hth (finish_op th RUaf).
     + auto.
+    + apply (i2_nostale s I2).
     + intros _ k0 ti r A B. contradiction.
     + apply (i2_list s I2).
     + apply (i2_stamp s I2).
@@ -1123,12 +1132,13 @@ Proof.
     + loc2 I1 I2 Hext Htime Hth (goto th (RetStrong old nt (hword s) (hnodes s) neww c0 c0)); [|exact Hsn0].
       left. subst c0 neww. cbn. split; [reflexivity|]. split; [lia|]. split; [lia|]. split; [lia|]. split; [assumption|]. split; [assumption|].
       intro Hs. split; [assumption|]. apply (i2_stamp s I2 Hs).
-    + loc2 I1 I2 Hext Htime Hth (goto th (RetWeak old nt (hword s) (hnodes s) neww c0 c0)); [|exact Hsn0].
-      left. subst c0 neww. cbn. split; [reflexivity|]. split; [lia|]. split; [lia|]. split; [lia|]. split; assumption.
+    + loc2 I1 I2 Hext Htime Hth (goto th (RetWeak old nt (hword s) (hnodes s) (retry_new_head (node_addr old) (stamp_at c0)) c0 c0)); [|exact Hsn0].
+      left. subst c0 neww. cbn. split; [reflexivity|]. split; [lia|]. split; [lia|]. split; [lia|]. split; [assumption|]. split; [assumption|reflexivity].
   - (* retire: expired list replaced *)
     rewrite H in Hpc0. cbn in Hpc0. destruct Hpc0 as (A & B & C & D & E & F & G).
     match goal with |- Inv2 (upd_thread _ _ ?x) => gen2 I1 I2 Hext Htime Hth x end.
     + auto.
+    + apply (i2_nostale s I2).
     + intros Hs k ti r Hin Hnot Hk Hr. destruct (G Hs) as (Ge & U0 & U1 & U2 & U3).
       rewrite H1 in Hin. destruct (U3 _ Hin) as (ti0 & r0 & Hk0 & Hr0 & Hle). rewrite Hk in Hk0. inversion Hk0; subst ti0.
       assert (r0 = r) by congruence. subst r0.
@@ -1143,11 +1153,13 @@ Proof.
   - (* retire: strong CAS lost *)
     rewrite H in Hpc0. cbn in Hpc0. destruct Hpc0 as (A & B & C & D & E & F & G).
     match goal with |- Inv2 (upd_thread _ _ ?x) => loc2 I1 I2 Hext Htime Hth x end; [|exact Hsn0].
-    left. cbn. split; [assumption|]. split; [lia|]. split; [lia|]. split; [lia|]. split; [assumption|]. apply (i2_list s I2).
+    left. cbn. split; [reflexivity|]. split; [lia|]. split; [lia|]. split; [lia|].
+    split; [apply (sup_le_mono s old c0 (clock s)); [lia|assumption]|]. split; [apply (i2_list s I2)|reflexivity].
   - (* retire: push won *)
-    rewrite H in Hpc0. cbn in Hpc0. destruct Hpc0 as (A & B & C & D & E & F). subst s1 s2.
+    rewrite H in Hpc0. cbn in Hpc0. destruct Hpc0 as (A & B & C & D & E & F & G). subst s1 s2.
     match goal with |- Inv2 (upd_thread _ _ ?x) => gen2 I1 I2 Hext Htime Hth x end.
     + cbn [stale upd_thread with_mem with_head]. intro Hs. apply orb_false_elim in Hs. tauto.
+    + cbn [stale upd_thread with_mem with_head]. rewrite (i2_nostale s I2). subst c0. rewrite Z.ltb_irrefl. reflexivity.
     + cbn. intros _ k ti r Hin Hnot. exfalso. apply Hnot. right. congruence.
     + cbn. intros k [<-|Hin].
       * destruct E as (ti & r & Hk & Hr & Hle). exists ti, r. repeat split; auto. lia.
@@ -1163,13 +1175,15 @@ Proof.
     + exact Hsn0.
     + intros k l c Hin. left. exact Hin.
   - (* retire: push lost *)
-    rewrite H in Hpc0. cbn in Hpc0. destruct Hpc0 as (A & B & C & D & E & F).
+    rewrite H in Hpc0. cbn in Hpc0. destruct Hpc0 as (A & B & C & D & E & F & G).
     match goal with |- Inv2 (upd_thread _ _ ?x) => loc2 I1 I2 Hext Htime Hth x end; [|exact Hsn0].
-    left. cbn. split; [assumption|]. split; [lia|]. split; [lia|]. split; [lia|]. split; [assumption|]. apply (i2_list s I2).
+    left. cbn. split; [reflexivity|]. split; [lia|]. split; [lia|]. split; [lia|].
+    split; [apply (sup_le_mono s old c0 (clock s)); [lia|assumption]|]. split; [apply (i2_list s I2)|reflexivity].
   - (* gc won *)
     rewrite H in Hpc0. cbn in Hpc0. destruct Hpc0 as (A & B & C & G).
     match goal with |- Inv2 (upd_thread _ _ ?x) => gen2 I1 I2 Hext Htime Hth x end.
     + auto.
+    + apply (i2_nostale s I2).
     + intros Hs k ti r Hin Hnot Hk Hr. destruct (G Hs) as (Ge & U0 & U1 & U2 & U3).
       rewrite H1 in Hin. destruct (U3 _ Hin) as (ti0 & r0 & Hk0 & Hr0 & Hle). rewrite Hk in Hk0. inversion Hk0; subst ti0.
       assert (r0 = r) by congruence. subst r0.
@@ -1270,16 +1284,19 @@ Proof.
   intros b t0 progs s HR. destruct (i1_cur s (cv_reach_inv1 _ _ _ _ HR)) as (tc & Hc & _ & H1 & H2). exists tc. auto.
 Qed.
 
-(* cooling period: a superseded table is freed more than 64 s after the CAS that superseded it, unless some retire
-   pushed a stale stamp *)
-Lemma cv_cooling_partial : forall b t0 progs s, 0 <= t0 -> Reach b t0 progs s -> stale s = false ->
-  forall k ti r f, nth_error (tables s) k = Some ti -> tsup ti = Some r -> tfreed ti = Some f -> f - r > 64.
-Proof. intros b t0 progs s Ht HR Hs. destruct (cv_reach_inv _ _ _ _ Ht HR) as [_ I2]. apply (i2_cool s I2 Hs). Qed.
+(* since fix 8cef5d9 (clock re-read in every round of the push loop) no retire ever pushes a stale stamp *)
+Lemma cv_never_stale : forall b t0 progs s, 0 <= t0 -> Reach b t0 progs s -> stale s = false.
+Proof. intros b t0 progs s Ht HR. destruct (cv_reach_inv _ _ _ _ Ht HR) as [_ I2]. apply (i2_nostale s I2). Qed.
 
-(* a snapshot is found freed only more than 64 s after it was taken (same proviso) *)
-Lemma cv_snapshot_partial : forall b t0 progs s, 0 <= t0 -> Reach b t0 progs s -> stale s = false ->
+(* cooling period: a superseded table is freed more than 64 s after the CAS that superseded it *)
+Lemma cv_cooling : forall b t0 progs s, 0 <= t0 -> Reach b t0 progs s ->
+  forall k ti r f, nth_error (tables s) k = Some ti -> tsup ti = Some r -> tfreed ti = Some f -> f - r > 64.
+Proof. intros b t0 progs s Ht HR. destruct (cv_reach_inv _ _ _ _ Ht HR) as [_ I2]. apply (i2_cool s I2 (i2_nostale s I2)). Qed.
+
+(* a snapshot is found freed only more than 64 s after it was taken *)
+Lemma cv_snapshot_usable : forall b t0 progs s, 0 <= t0 -> Reach b t0 progs s ->
   forall k taken c, In (k, taken, c) (uaf s) -> c - taken > 64.
-Proof. intros b t0 progs s Ht HR Hs. destruct (cv_reach_inv _ _ _ _ Ht HR) as [_ I2]. apply (i2_uaf s I2 Hs). Qed.
+Proof. intros b t0 progs s Ht HR. destruct (cv_reach_inv _ _ _ _ Ht HR) as [_ I2]. apply (i2_uaf s I2 (i2_nostale s I2)). Qed.
 
 (* superseded / freed times are in the past; unpublished tables are never marked superseded *)
 Lemma cv_times_sane : forall b t0 progs s, 0 <= t0 -> Reach b t0 progs s ->
@@ -1289,39 +1306,6 @@ Proof.
   intros b t0 progs s Ht HR k ti Hk. destruct (cv_reach_inv _ _ _ _ Ht HR) as [_ I2]. split.
   - intros r Hr. eapply (i2_sup s I2); eauto.
   - intros f Hf. eapply (i2_freed s I2); eauto.
-Qed.
-
-(* F4: the unconditional cooling statement is false of the model (and of the code): a retire that read the clock,
-   lost its CAS to a retire 128 s later and then pushed its old stamp lets gc() free a table in the same second in
-   which it was superseded, while a snapshot of it taken in that same second is still in use *)
-Definition f4_progs : list (list op) := [[OEnsure 0]; [OAdv 128; OSnap; OEnsure 1; OGc; OSnapGet 0]].
-Definition f4_sched : list nat := [0; 0; 0; 1; 1; 1; 1; 1; 1; 0; 0; 1; 1; 1]%nat.
-Lemma cv_cooling_refuted :
-  exists s, Reach 0 1000000 f4_progs s /\ all_done s = true /\
-    (exists k ti r f, nth_error (tables s) k = Some ti /\ tsup ti = Some r /\ tfreed ti = Some f /\ f - r = 0) /\
-    (exists k taken c, In (k, taken, c) (uaf s) /\ c - taken = 0) /\ stale s = true.
-Proof.
-  set (s := run st step (init 0 1000000 f4_progs) f4_sched).
-  exists s. split; [exists f4_sched; reflexivity|].
-  split; [vm_compute; reflexivity|]. split; [|split].
-  - exists 1%nat, (nth 1 (tables s) empty_table), 1000128, 1000128. vm_compute.
-    split; [reflexivity|]. split; [reflexivity|]. split; reflexivity.
-  - exists 1%nat, 1000128, 1000128. split; [vm_compute; left; reflexivity|reflexivity].
-  - vm_compute. reflexivity.
-Qed.
-
-(* a stall of 2 s across a unit boundary is enough to lose the guarantee: cooling of 63 s *)
-Definition f4b_progs : list (list op) := [[OAdv 63; OEnsure 0]; [OAdv 2; OSnap; OEnsure 1; OAdv 63; OGc; OSnapGet 0]].
-Definition f4b_sched : list nat := [0; 0; 0; 0; 1; 1; 1; 1; 1; 1; 0; 0; 1; 1; 1; 1]%nat.
-Lemma cv_cooling_refuted_short_stall :
-  exists s, Reach 0 1000000 f4b_progs s /\ all_done s = true /\
-    (exists k ti r f, nth_error (tables s) k = Some ti /\ tsup ti = Some r /\ tfreed ti = Some f /\ f - r = 63).
-Proof.
-  set (s := run st step (init 0 1000000 f4b_progs) f4b_sched).
-  exists s. split; [exists f4b_sched; reflexivity|].
-  split; [vm_compute; reflexivity|].
-  exists 1%nat, (nth 1 (tables s) empty_table), 1000065, 1000128. vm_compute.
-  split; [reflexivity|]. split; [reflexivity|]. split; reflexivity.
 Qed.
 
 (* constructed exactly once: no block's constructor count ever differs from 1 *)
